@@ -39,6 +39,8 @@ const (
 	kChoicePredRef  // ( !'x' / R )        a nullable alternative that can fail, then the reference
 	kChoicePredNRef // ( !'x' / N R 'y' )  the same with a nullable rule in front of the reference
 	kRecThrowRef    // ( T 'z' ) //{l} R   T <- 'b' / %{l}: R runs where the throw happens, possibly at the start of the rule
+	kOptNRef        // ( N R 'y' )?        nullable on its own, the reference behind a nullable rule that sorts after A and B
+	kStarNRef       // ( N R 'y' )*
 	kNumRefKinds
 )
 
@@ -147,6 +149,14 @@ func c07Make(d c07Desc) ast.Expression {
 		e := ast.NewZeroOrMoreExpr(p)
 		e.Expr = c07Seq(lit("a"), r)
 		return e
+	case kOptNRef:
+		e := ast.NewZeroOrOneExpr(p)
+		e.Expr = c07Seq(c07Ref("N"), r, lit("y"))
+		return e
+	case kStarNRef:
+		e := ast.NewZeroOrMoreExpr(p)
+		e.Expr = c07Seq(c07Ref("N"), r, lit("y"))
+		return e
 	case kRecThrowRef:
 		e := ast.NewRecoveryExpr(p)
 		e.Expr = c07Seq(c07Ref("T"), lit("z"))
@@ -206,7 +216,7 @@ func reflrSlotNullable(d c07Desc, ruleNull []bool) bool {
 	switch d.kind {
 	case kLitA, kAny:
 		return false
-	case kEmpty, kPred, kAnd, kNot, kOpt, kStar, kStarLitRef, kChoicePredRef, kChoicePredNRef:
+	case kEmpty, kPred, kAnd, kNot, kOpt, kStar, kStarLitRef, kChoicePredRef, kChoicePredNRef, kOptNRef, kStarNRef:
 		return true
 	case kRef, kLabel, kAct, kPlus, kChoiceFirst, kChoiceSecond, kRecover, kSeqOptRef:
 		return ruleNull[d.ref]
